@@ -133,6 +133,51 @@ def source_sets(ctx):
             ctx.decide(o, not miss, "", "the new %s in %s does not derive from %s" % (fld, common.short(key), fmt_missing(miss)), loc=sites[0].line())
 
 
+VIEWS = ("iter", "deref", "deref_mut", "as_slice", "as_ref", "borrow", "into_iter", "clone", "to_vec", "copied", "cloned")
+
+
+def is_maintenance_scan(fd, c):
+    """an Iterator::any whose predicate asks is_maintenance"""
+    if not (c.decl == "core::iter::traits::iterator::Iterator::any" or (c.callee or "").endswith("::any")):
+        return False
+    cl = set()
+    for a in c.args:
+        cl |= fd.slice_operand_pure(c, a)["atoms"]
+    return call(ND("is_maintenance")) in cl
+
+
+def view_root(fd, op, stop=None):
+    """the local a sequence operand is a *view* of: receiver chain through iter()/deref()/&/copies only (splice, drain,
+    collect hand out OTHER nodes and end the chain with None)"""
+    from ..facts import Operand
+    cur = op
+    guard = 0
+    while cur is not None and cur.place is not None and guard < 12:
+        guard += 1
+        l = cur.place.local
+        if l == stop:
+            return l
+        ds = [x for x in fd.defs.get(l, ()) if x.kind != "param"]
+        if not ds:
+            return l                       # a parameter
+        if len(ds) != 1 and not all(x.kind == "call-mut" for x in ds[1:]):
+            return l
+        i3 = ds[0].instr
+        if i3 is None:
+            return l
+        if i3.kind == "call" and i3.args:
+            if (i3.callee or "").split("::")[-1] not in VIEWS:
+                return None
+            cur = i3.args[0]
+        elif i3.kind == "assign" and i3.rv_kind() == "ref":
+            cur = Operand({"k": "copy", "pl": {"l": i3.ref_place().local, "p": []}})
+        elif i3.kind == "assign" and i3.rv_kind() in ("use", "cast") and i3.ops:
+            cur = i3.ops[0]
+        else:
+            return l
+    return None
+
+
 def recomputed_from_new_nodes(ctx):
     """whatever is recomputed from scratch, or scanned for maintenance, is computed on the NEW node sequence"""
     cm = prov.ctor_map(ctx.prog, common.TOUR_PRE, TOUR)
@@ -170,44 +215,25 @@ def recomputed_from_new_nodes(ctx):
         scans = []
         for d in sl["defs"]:
             i2 = d.instr
-            if i2 is not None and i2.kind == "call" and (i2.decl == "core::iter::traits::iterator::Iterator::any" or (i2.callee or "").endswith("::any")):
-                cl = set()
-                for a in i2.args:
-                    cl |= fd.slice_operand_pure(i2, a)["atoms"]
-                if call(ND("is_maintenance")) in cl:
-                    # the scanned sequence is the new node vector itself: receiver chain iter()/deref()/& ... down to that local
-                    cur = i2.args[0]
-                    guard = 0
-                    rootl = None
-                    while cur is not None and cur.place is not None and guard < 10:
-                        guard += 1
-                        ds = [x for x in fd.defs.get(cur.place.local, ()) if x.kind != "param"]
-                        named = fd.body.local_name(cur.place.local)
-                        if cur.place.local == new_nodes:
-                            rootl = cur.place.local
-                            break
-                        if len(ds) != 1 and not (len(ds) >= 1 and all(x.kind in ("call-mut",) for x in ds[1:])):
-                            rootl = cur.place.local
-                            break
-                        i3 = ds[0].instr
-                        if i3 is None:
-                            break
-                        if i3.kind == "call" and i3.args:
-                            # only views of the same sequence are followed (not splice/drain/collect, which hand out OTHER nodes)
-                            if (i3.callee or "").split("::")[-1] not in ("iter", "deref", "deref_mut", "as_slice", "as_ref", "borrow",
-                                                                           "into_iter", "clone", "to_vec", "copied", "cloned"):
-                                break
-                            cur = i3.args[0]
-                        elif i3.kind == "assign" and i3.rv_kind() == "ref":
-                            from ..facts import Operand
-                            cur = Operand({"k": "copy", "pl": {"l": i3.ref_place().local, "p": []}})
-                        elif i3.kind == "assign" and i3.rv_kind() in ("use", "cast") and i3.ops:
-                            cur = i3.ops[0]
-                        else:
-                            rootl = cur.place.local
-                            break
-                    if rootl == new_nodes:
-                        scans.append(i2)
+            if i2 is None or i2.kind != "call":
+                continue
+            if is_maintenance_scan(fd, i2):
+                if view_root(fd, i2.args[0], stop=new_nodes) == new_nodes:
+                    scans.append(i2)
+                continue
+            # the flag may be computed by a private helper that is handed the new node vector
+            sg = ctx.prog.sigs.get(i2.callee or "")
+            if sg is not None and not sg.get("pub") and i2.callee in ctx.prog.bodies:
+                for k2 in ctx.prog.family(i2.callee):
+                    f2 = ctx.fd(k2)
+                    if f2.body.is_closure:
+                        continue
+                    for c2 in f2.body.calls():
+                        if is_maintenance_scan(f2, c2):
+                            r = view_root(f2, c2.args[0])
+                            if r is not None and 1 <= r <= f2.body.argc and r - 1 < len(i2.args) \
+                                    and view_root(fd, i2.args[r - 1], stop=new_nodes) == new_nodes:
+                                scans.append(c2)
         ctx.decide(o, bool(scans), "an is_maintenance scan over the new node vector feeds the flag",
                    "the visits-maintenance flag of the new tour does not look at the remaining nodes: removing/displacing one of two "
                    "maintenance slots clears (or keeps) the flag wrongly", loc=site[0].line())
@@ -288,6 +314,16 @@ def formation_update_order(ctx):
                            "unserved passengers at a node are subtracted for the old formation and added for the new one")
     if fd is None:
         return
+    # the bracketed insert may live in a private helper that holds the loop body
+    host = None
+    for f in hosts(ctx, UTF):
+        if calls_to(f, S("compute_unserved_passengers_at_node")):
+            host = f
+            break
+    if host is None:
+        ctx.bad(o, "update_train_formation never evaluates compute_unserved_passengers_at_node")
+        return
+    fd = host
     cu = calls_to(fd, S("compute_unserved_passengers_at_node"))
     ins = [c for c in fd.body.calls() if (c.callee or "").endswith("HashMap::insert") and len(c.args) == 3]
     ok = len(cu) == 2 and len(ins) >= 1
